@@ -4,7 +4,7 @@
 // paths, at most once per notification, never after removal, and without
 // disturbing other subscribers registered at the same paths.
 //
-// Four generated parts share this file's vocabulary:
+// Five generated parts share this file's vocabulary:
 //
 //	exhaustive  all (subscription path, update path) pairs of length 0-4 over
 //	            {a,b,*}, all two-registration triples of length 0-2, and the
@@ -17,6 +17,9 @@
 //	            calls are in flight: calls paused inside one of their callbacks
 //	            (the harness owns the callbacks) and free-running rounds on the
 //	            real scheduler, judged from sequence stamps (inflight.go)
+//	atomic      container notifications (a prefix and 1-5 members, atomic or
+//	            not) against subscribers placed around the container, judged at
+//	            the match, server and real-cache layers (atomic.go)
 //
 // The generators of the random, server and inflight parts are in gen_test.go /
 // inflight_test.go; derive.go holds the path derivations (twins under a
